@@ -97,6 +97,16 @@ OPTIONS = {
         'cli': (['--region', 'r-cli'], 'r-cli'), 'env': ({'S3C_REGION': 'r-env'}, 'r-env'),
         'profile': ('region = "r-profile"', 'r-profile'), 'default': ('region = "r-default"', 'r-default'), 'builtin': 'REQUIRED',
         'get': lambda rec: rec['backend'].region, 'backend': 's3c'},
+    # the environment names of the other built-in adapters are the documented ones (README: S3_REGION, B2_KEY_ID): an adapter that
+    # derives from another named adapter still reads ITS OWN variables
+    's3-region': {
+        'cli': (['--region', 'r-cli'], 'r-cli'), 'env': ({'S3_REGION': 'r-env'}, 'r-env'),
+        'profile': ('region = "r-profile"', 'r-profile'), 'default': ('region = "r-default"', 'r-default'), 'builtin': 'REQUIRED',
+        'get': lambda rec: rec['backend'].region, 'backend': 's3'},
+    'b2-key-id': {
+        'cli': (['--key-id', 'k-cli'], 'k-cli'), 'env': ({'B2_KEY_ID': 'k-env'}, 'k-env'),
+        'profile': ('key-id = "k-profile"', 'k-profile'), 'default': ('key-id = "k-default"', 'k-default'), 'builtin': 'REQUIRED',
+        'get': lambda rec: rec['backend'].key_id, 'backend': 'b2'},
 }
 COMMANDS = {'snapshot': ['snapshot', 'some/path'], 'restore': ['restore'], 'init': ['init']}
 
@@ -130,7 +140,7 @@ def run_main(argv, env, config_text, tmp):
     cfg.write_text(config_text)
     old_env, old_argv, old_handler = dict(os.environ), sys.argv, m._cmd_handler
     for k in list(os.environ):
-        if k.startswith(('REPLICAT_', 'CUSTOM_', 'Custom_', 'S3C_')):
+        if k.startswith(('REPLICAT_', 'CUSTOM_', 'Custom_', 'S3C_', 'S3_', 'B2_')):
             del os.environ[k]
     os.environ.update(env)
     sys.argv = ['replicat'] + argv
@@ -183,18 +193,22 @@ def main():
                 for subset in itertools.combinations(avail, r):
                     for cmd, cmd_argv in commands.items():
                         argv_front, env, prof, dflt = [], {}, [], []
-                        base_repo = {'local': 'local:some/dir', 'custom': 'custom:conn-base', 's3c': 's3c:bucket'}[backend]
+                        base_repo = {'local': 'local:some/dir', 'custom': 'custom:conn-base', 's3c': 's3c:bucket', 's3': 's3:bucket', 'b2': 'b2:bucket'}[backend]
                         if opt != 'repository':
                             dflt.append(f'repository = "{base_repo}"')
                         if backend == 's3c':
                             argv_tail = ['--key-id', 'k', '--access-key', 's', '--host', 'h.test']
+                        elif backend == 's3':
+                            argv_tail = ['--key-id', 'k', '--access-key', 's']
+                        elif backend == 'b2':
+                            argv_tail = ['--application-key', 'a']
                         else:
                             argv_tail = []
                         for s in subset:
                             how, _ = spec[s]
                             how = subst(how, tmp)
                             if s == 'cli':
-                                (argv_tail if opt in ('token', 'level', 'flag', 'region', 'legacy', 'secret', 'timeout') else argv_front).extend(how)
+                                (argv_tail if opt in ('token', 'level', 'flag', 'region', 'legacy', 'secret', 'timeout', 's3-region', 'b2-key-id') else argv_front).extend(how)
                             elif s == 'env':
                                 env.update(how)
                             elif s == 'profile':
